@@ -328,8 +328,12 @@ pub fn family_mul(r: &mut Rng) -> Key {
 pub fn family_error(r: &mut Rng) -> Key {
     let n = scaled(r, 2, 5);
     let params: Vec<String> = (0..n).map(|i| format!("E{i}")).collect();
+    // sometimes every source is the same outer type around a different parameter (`Wrap<E0>`, `Wrap<E1>`):
+    // bounds that differ only deep inside
+    let wrap = *r.pick(&["", "", "Wrap", "Box", ":: std :: sync :: Arc"]);
     let mut variants = Vec::new();
     for (i, p) in params.iter().enumerate() {
+        let p = &if wrap.is_empty() { p.clone() } else { format!("{wrap} < {p} >") };
         let v = match r.below(4) {
             0 => format!("V{i} {{ source : {p} }}"),
             1 => format!("V{i} ( # [error (source)] {p} , u8 )"),
@@ -405,6 +409,16 @@ pub fn family_fmt(r: &mut Rng) -> Key {
 
 pub const N_FAMILIES: usize = 6;
 pub const FAMILY_NAMES: [&str; N_FAMILIES] = ["try_into", "from_str", "mul_like", "error", "from_into", "fmt_bounds"];
+
+/// derives each family exercises (a hot session keeps to them)
+pub const FAMILY_DERIVES: [&[&str]; N_FAMILIES] = [
+    &["TryInto"],
+    &["FromStr"],
+    &["Mul", "Div", "Rem", "Shr", "Shl", "MulAssign", "DivAssign", "RemAssign", "ShrAssign", "ShlAssign"],
+    &["Error"],
+    &["From", "Into"],
+    &["Display", "Debug", "Binary", "Octal", "LowerHex", "UpperHex", "LowerExp", "UpperExp", "Pointer"],
+];
 
 pub fn family(r: &mut Rng, which: usize) -> Key {
     match which {
@@ -515,4 +529,60 @@ pub fn twin(key: &Key, r: &mut Rng) -> Option<Key> {
         derive: key.derive.clone(),
         item,
     })
+}
+
+
+/// The same token sequence, written differently: seeded blanks, tabs, line breaks and comments between
+/// tokens (joint punctuation such as `::`, `->`, `'a` stays glued). To a derive this is the same input;
+/// only span positions and the source text behind the spans differ.
+/// (seeded blanks, tabs and line breaks; comments are left out, see `sep`)
+pub fn rerender(item: &str, r: &mut Rng) -> Option<String> {
+    use proc_macro2::{Delimiter, Spacing, TokenStream, TokenTree};
+    use std::str::FromStr;
+    let ts = TokenStream::from_str(item).ok()?;
+    fn sep(r: &mut Rng) -> &'static str {
+        // no comments: rustc's pretty-printer re-attaches them to the printed item, which would differ
+        // for reasons that have nothing to do with the derive
+        *r.pick(&[" ", " ", " ", "  ", "\t", "\n", "\n    ", "    ", "\n\n", "   \n\n"])
+    }
+    fn walk(ts: TokenStream, r: &mut Rng, out: &mut String) {
+        let mut glue = true; // no separator before the first token of a stream
+        for tt in ts {
+            if !glue {
+                out.push_str(sep(r));
+            }
+            glue = false;
+            match tt {
+                TokenTree::Group(g) => {
+                    let (o, c) = match g.delimiter() {
+                        Delimiter::Parenthesis => ("(", ")"),
+                        Delimiter::Brace => ("{", "}"),
+                        Delimiter::Bracket => ("[", "]"),
+                        Delimiter::None => ("", ""),
+                    };
+                    out.push_str(o);
+                    out.push_str(sep(r));
+                    walk(g.stream(), r, out);
+                    out.push_str(sep(r));
+                    out.push_str(c);
+                }
+                TokenTree::Punct(p) => {
+                    out.push(p.as_char());
+                    if p.spacing() == Spacing::Joint {
+                        glue = true;
+                    }
+                }
+                TokenTree::Ident(i) => out.push_str(&i.to_string()),
+                TokenTree::Literal(l) => out.push_str(&l.to_string()),
+            }
+        }
+    }
+    let mut out = String::new();
+    walk(ts, r, &mut out);
+    // must still be the same tokens
+    let back = TokenStream::from_str(&out).ok()?;
+    if back.to_string() != TokenStream::from_str(item).ok()?.to_string() {
+        return None;
+    }
+    Some(out)
 }
